@@ -97,14 +97,14 @@ namespace {
 // ------------------------------------------------------------------ scenarios
 
 enum Kind { K_VEC_INT = 0, K_VEC_STR, K_MAP, K_REQUIRES, K_EXCLUDES, K_GLOBAL, K_CHECKS, K_USAGE, K_LISTVARS,
-            K_TUPLE, K_BITSET, K_SET_FORMAT, NKINDS };
+            K_TUPLE, K_BITSET, K_SET_FORMAT, K_ENVVAR, NKINDS };
 const char* const kindNames[NKINDS] = { "vector-int", "vector-string", "map", "requires", "excludes", "global-constraint",
-                                        "checks", "usage", "list-arg-vars", "tuple-array", "bitset", "set-format" };
+                                        "checks", "usage", "list-arg-vars", "tuple-array", "bitset", "set-format", "env-var" };
 /// family of a scenario kind = what the stable key of a sequential-equivalence violation names
 /// (one defect in shared state must not produce a dozen keys, different areas stay apart)
 const char* const kindFamily[NKINDS] = { "container-values", "container-values", "container-values", "constraints", "constraints",
                                          "constraints", "checks", "output", "output", "container-values", "container-values",
-                                         "container-values" };
+                                         "container-values", "sources" };
 const char SEPS[7] = { ',', ';', ':', '+', '|', '/', '#' };
 const char* const WORDS[12] = { "alpha", "Bravo", "charlie", "DELTA", "echo", "Foxtrot", "golf", "Hotel", "india", "JULIET", "kilo", "Lima" };
 
@@ -223,6 +223,11 @@ Scenario makeScenario(vh::Rng& r, int kind, int sepIdx)
    case K_SET_FORMAT:
       sc.argv = { "-s", joinStrs(sc.words, sc.sep), "-n", joinInts(sc.nums, sc.sep2) };
       break;
+   case K_ENVVAR:
+      // the program file name (argv[0], differs per scenario: variant) names the environment variable TOOL<variant>,
+      // set in main() before any thread starts; the command line adds -s
+      sc.argv = { "-s", sc.words[0] };
+      break;
    }
    char b[64];
    snprintf(b, sizeof b, "%s sep='%c' sep2='%c' variant=%d argv=", kindNames[kind], sc.sep, sc.sep2, sc.variant);
@@ -256,7 +261,9 @@ std::string runScenario(const Scenario& sc)
    namespace pa = celma::prog_args;
    std::ostringstream out, err, dump;
    std::vector<std::string> store;
-   store.push_back("prog");
+   if (sc.kind == K_ENVVAR)
+      store.push_back(std::string((sc.variant & 1) ? "/opt/celma/bin/" : (sc.variant & 2) ? "./" : "") + "tool" + std::to_string(sc.variant));
+   else store.push_back("prog");
    for (auto& a : sc.argv) store.push_back(a);
    std::vector<char*> av;
    for (auto& s : store) av.push_back(&s[0]);
@@ -412,6 +419,18 @@ std::string runScenario(const Scenario& sc)
          dump << "b=" << b.to_string();
          break;
       }
+      case K_ENVVAR:
+      {
+         int i = -1;
+         std::string s, tag;
+         Handler ah(out, err, Handler::hfEnvVarArgs);
+         ah.addArgument("i", DEST_VAR(i), "Integer");
+         ah.addArgument("s", DEST_VAR(s), "String");
+         ah.addArgument("tag", DEST_VAR(tag), "Tag");
+         ah.evalArguments(ac, av.data());
+         dump << "i=" << i << " s=" << s << " tag=" << tag;
+         break;
+      }
       case K_SET_FORMAT:
       {
          std::set<std::string> s;
@@ -504,6 +523,12 @@ int main(int argc, char** argv)
       fprintf(stderr, "unknown mode %s\n", a.mode.c_str());
       return 3;
    }
+   for (int v = 0; v < 8; ++v)
+   {
+      // read by the env-var scenarios; never changed once threads exist
+      const std::string name = "TOOL" + std::to_string(v), val = "-i " + std::to_string(1000 + v) + " --tag env" + std::to_string(v);
+      setenv(name.c_str(), val.c_str(), 1);
+   }
    for (uint64_t idx = a.start; idx < a.start + a.count; ++idx)
    {
       out.curIdx = idx;
@@ -517,7 +542,9 @@ int main(int argc, char** argv)
       // scenarios: consecutive kinds and consecutive separators, so that the threads of a case differ
       std::vector<Worker> ws(T);
       const int k0 = (int)r.below(NKINDS), s0 = (int)r.below(7);
-      const int kstep = 1 + (int)r.below(4) * 2;     // NKINDS = 12: steps 1,3,5,7 -> 5 and 7 are coprime; others repeat later
+      const int kstep = 1 + (int)r.below(4) * 2;     // NKINDS = 13: every step is coprime
+      const bool envCase = r.chance(1, 5);
+      const int envBase = (int)r.below(8);
       uint64_t h = vh::hash_u64(T, vh::hash_u64(level));
       for (unsigned t = 0; t < T; ++t)
       {
@@ -525,7 +552,14 @@ int main(int argc, char** argv)
          // based kinds more often
          int kind = (k0 + (int)t * kstep) % NKINDS;
          if (t < 2 && r.chance(1, 2)) kind = (t == 0) ? K_VEC_INT : K_VEC_STR;
+         if (envCase && t < 3) kind = K_ENVVAR;
          ws[t].sc = makeScenario(r, kind, s0 + (int)t);
+         if (kind == K_ENVVAR && envCase)
+         {
+            // neighbouring threads read different variables
+            ws[t].sc.variant = (envBase + (int)t) % 8;
+            ws[t].sc = [&] { Scenario c = ws[t].sc; char b[64]; snprintf(b, sizeof b, "env-var variant=%d argv=", c.variant); c.descr = b; for (auto& x : c.argv) c.descr += " " + x; return c; }();
+         }
          ws[t].seed = vh::mix(r.next(), rep);
          h = vh::hash_str(ws[t].sc.descr, h);
          out.stat(std::string("scenario_") + kindNames[kind]);
